@@ -361,6 +361,11 @@ func cmdVerify(args []string) {
 			for _, ap := range pats {
 				if len(fc.Cases) == 0 {
 					results = append(results, en.VerifyFunction(fn, fc, pc, ap, -1))
+					if len(fc.SliceBind) > 0 {
+						en.sliceBindActive = true
+						results = append(results, en.VerifyFunction(fn, fc, pc, ap, -1))
+						en.sliceBindActive = false
+					}
 					continue
 				}
 				for ci := range fc.Cases {
